@@ -95,7 +95,14 @@ func (w *ServiceMonitor) makeConfig(checks []*api.HealthCheck) (string, error) {
 		m[name][id] = true
 	}
 
+	// n is the number of concurrent calls to consul. More than one per
+	// service is never used and the configured value must not size the
+	// semaphore: any positive int is a valid registry.consul.serviceMonitors
+	// but a huge one cannot be allocated (makechan: size out of range).
 	n := w.config.ServiceMonitors
+	if n > len(m) {
+		n = len(m)
+	}
 	if n <= 0 {
 		n = 1
 	}
